@@ -23,6 +23,8 @@ def _rname(rng):
 def gen_file(rng, tier):
     big = rng.random() < (0.05 if tier == "quick" else 0.2)
     n_res = rng.randint(41, 400) if big else rng.choice([1, 2, 3, rng.randint(1, 12), rng.randint(1, 40)])
+    if rng.random() < 0.0015:
+        n_res = rng.choice([rng.randint(400, 700), rng.randint(2500, 3500), rng.randint(4500, 6000)])   # files of 100 KiB .. 2 MiB
     vel = rng.random() < 0.35
     n_kinds = rng.randint(1, 5)
     kinds = []
